@@ -114,6 +114,10 @@ func vhEncryptedEl(p string, inner *etree.Element) *etree.Element {
 // detached next to EncryptedData; DigestMethod absent or SHA-256) — set by the harness that wants it.
 var vhEncLayouts bool
 
+// vhInheritPrefix: EncryptedAssertion elements rely on the saml: prefix declared on the Response root instead of
+// re-declaring it (set only for unsigned Responses: a signed one is re-parsed from canonical bytes, which re-declare it)
+var vhInheritPrefix bool
+
 func vhEncryptedElZ(p string, inner *etree.Element, compressed bool) *etree.Element {
 	symKey := vBytes(p + ".symkey")
 	vAssume(len(symKey) == 16)
@@ -125,7 +129,9 @@ func vhEncryptedElZ(p string, inner *etree.Element, compressed bool) *etree.Elem
 		}
 	}
 	ea := etree.NewElement("saml:EncryptedAssertion")
-	ea.CreateAttr("xmlns:saml", "urn:oasis:names:tc:SAML:2.0:assertion")
+	if !vhInheritPrefix {
+		ea.CreateAttr("xmlns:saml", "urn:oasis:names:tc:SAML:2.0:assertion")
+	}
 	ea.CreateAttr("vx-name", p)
 	ed := ea.CreateElement("xenc:EncryptedData")
 	ed.CreateAttr("xmlns:xenc", "http://www.w3.org/2001/04/xmlenc#")
@@ -167,6 +173,8 @@ type vhScenario struct {
 	hasIssuer                                                  bool
 	issuerOptional                                             bool // the scenario may omit the (schema-optional) Response Issuer
 	nonASCIIIssuer                                             bool // the Issuer value ends in a non-ASCII character
+	attrsOptional                                              bool // the scenario may omit the (schema-optional) InResponseTo attribute
+	foreignIssuer                                              bool // an extension child named Issuer in a foreign namespace follows the Issuer
 	// expected: the assertions that are legitimately verifiable, in document order as the library must return them
 	// (direct children of the root; decrypted ones take the place the library gives them)
 	direct    []*vhA // direct-child plaintext assertions (document order)
@@ -184,7 +192,11 @@ func vhResponseRoot(s *vhScenario, tag string) *etree.Element {
 	r.CreateAttr("xmlns:saml", "urn:oasis:names:tc:SAML:2.0:assertion")
 	s.ID, s.InResponseTo, s.Destination, s.Version = vIDString("resp.ID"), vString("resp.InResponseTo"), vString("resp.Destination"), vString("resp.Version")
 	r.CreateAttr("ID", s.ID)
-	r.CreateAttr("InResponseTo", s.InResponseTo)
+	if s.attrsOptional && !vFlag("resp.InResponseTo.present") {
+		s.InResponseTo = ""
+	} else {
+		r.CreateAttr("InResponseTo", s.InResponseTo)
+	}
 	r.CreateAttr("Destination", s.Destination)
 	r.CreateAttr("Version", s.Version)
 	r.CreateAttr("vx-sig", vhSigNames[s.rootSig])
@@ -199,6 +211,11 @@ func vhResponseRoot(s *vhScenario, tag string) *etree.Element {
 			s.Issuer += "\u00e9"
 		}
 		vhText2(r, "saml:Issuer", s.Issuer)
+	}
+	if s.foreignIssuer {
+		fi := r.CreateElement("meta:Issuer")
+		fi.CreateAttr("xmlns:meta", "urn:example:metadata-extension")
+		fi.CreateText(vString("resp.ForeignIssuer"))
 	}
 	if s.rootSig != vhSigNone {
 		holder := r
@@ -574,7 +591,7 @@ func VH_C12_routing() {
 	vAssume(vAnd(limit >= 0, limit <= 1<<27))
 	sp.MaximumDecompressedBodySize = limit
 	eff := vIteI(limit == 0, 5*1024*1024, limit)
-	s := &vhScenario{rootSig: vChoice("root.sig", 2), issuerOptional: true}
+	s := &vhScenario{rootSig: vChoice("root.sig", 2), issuerOptional: true, attrsOptional: true}
 	s.root = vhResponseRoot(s, "samlp:Response")
 	a := vhAssertionEl("c0", vhSigValid)
 	vAssume(a.ID != s.ID)
@@ -785,6 +802,10 @@ func vhGenuineL(maxKids int, layouts bool) {
 		s.rootSig = vChoice("root.sig", 2) // none or valid
 	}
 	s.root = vhResponseRoot(s, "samlp:Response")
+	if !layouts && s.rootSig == vhSigNone {
+		vhInheritPrefix = vFlag("encrypted.saml-prefix-declared-on-the-root-only")
+		defer func() { vhInheritPrefix = false }()
+	}
 	n := 1 + vChoice("nChildren-1", maxKids)
 	if layouts {
 		n = 2
